@@ -592,8 +592,9 @@ fn find_path_value(attrs: &[ast::Attribute]) -> Option<Symbol> {
 fn is_cfg_if(item: &ast::Item) -> bool {
     match item.kind {
         ast::ItemKind::MacCall(ref mac) => {
-            if let Some(first_segment) = mac.path.segments.first() {
-                if first_segment.ident.name == Symbol::intern("cfg_if") {
+            // The macro is named by the last segment: `::cfg_if::cfg_if!`.
+            if let Some(last_segment) = mac.path.segments.last() {
+                if last_segment.ident.name == Symbol::intern("cfg_if") {
                     return true;
                 }
             }
